@@ -3,8 +3,10 @@
 package app
 
 import (
+	"fmt"
 	"io"
 	"text/template"
+	"time"
 
 	"github.com/Eyevinn/mp4ff/mp4"
 )
@@ -33,6 +35,17 @@ func vStubExecuteTemplate(t *template.Template, wr io.Writer, name string, data 
 
 // the message is replaced by a value-carrying string (time formatting is outside)
 func vStubMakeStppMessage(lang string, utcMS, segNr int) string { return vEncInt("utc", utcMS) }
+
+// (time.Time).Format under symbolic execution, for the clock layout only: the same four numbers a hand-written
+// hh:mm:ss.mmm rendering has - but wrapping at 24 hours, as the real Format does.
+func vStubTimeFormatClock(t time.Time, layout string) string {
+	if layout != "15:04:05.000" {
+		return layout
+	}
+	sec := int(t.Unix())
+	ms := t.Nanosecond() / 1000000
+	return fmt.Sprintf("%02d:%02d:%02d.%03d", (sec/3600)%24, (sec/60)%60, sec%60, ms)
+}
 
 func vTTMLMS(s string) int {
 	return ((vFmtIntAt(s, 0)*60+vFmtIntAt(s, 1))*60+vFmtIntAt(s, 2))*1000 + vFmtIntAt(s, 3)
